@@ -82,6 +82,10 @@ type WAL struct {
 	// waits on the close before acquiring the lock and continuing.
 	triggerRotate chan uint64
 	awaitRotate   chan struct{}
+
+	// metaErr is set (under writeMu) when a failed state transaction could not
+	// restore the stored metadata; see abortStateTxnLocked.
+	metaErr error
 }
 
 type walOpt func(*WAL)
@@ -286,18 +290,38 @@ func (w *WAL) mutateStateLocked(tx stateTxn) error {
 
 	// Commit updates to meta
 	if err := w.metaDB.CommitState(newS.Persistent()); err != nil {
-		return err
+		return w.abortStateTxnLocked(s, &newS, err)
 	}
 
 	if postCommit != nil {
 		if err := postCommit(); err != nil {
-			return err
+			return w.abortStateTxnLocked(s, &newS, err)
 		}
 	}
 
 	w.s.Store(&newS)
 	s.finalizer.Store(fn)
 	return nil
+}
+
+// abortStateTxnLocked is called when a state transaction fails at or after its
+// metadata commit. The meta store may now hold the new metadata (the commit
+// succeeded but the file could not be created, or the commit reported an error
+// after becoming durable) while we keep using the old state in memory. Entries
+// acknowledged from here on would go to segments the stored metadata no longer
+// describes and be lost at the next Open. Put the metadata of the state we keep
+// back, retaining the advanced NextSegmentID so that an ID that may already
+// have been used for a file is never handed out again. If even that fails we
+// can't know what is stored any more, so refuse further mutations.
+func (w *WAL) abortStateTxnLocked(old *state, failed *state, cause error) error {
+	restored := old.clone()
+	restored.nextSegmentID = failed.nextSegmentID
+	if err := w.metaDB.CommitState(restored.Persistent()); err != nil {
+		w.metaErr = fmt.Errorf("metadata is out of step with in-memory state, WAL must be reopened: %w", cause)
+		return cause
+	}
+	w.s.Store(&restored)
+	return cause
 }
 
 // acquireState should be used by all readers to fetch the current state. The
@@ -414,6 +438,9 @@ func (w *WAL) StoreLogs(logs []*raft.Log) error {
 	if err := w.checkClosed(); err != nil {
 		return err
 	}
+	if w.metaErr != nil {
+		return w.metaErr
+	}
 
 	s, release := w.acquireState()
 	defer release()
@@ -525,6 +552,9 @@ func (w *WAL) DeleteRange(min uint64, max uint64) error {
 	// See StoreLogs: re-check now that we hold the lock.
 	if err := w.checkClosed(); err != nil {
 		return err
+	}
+	if w.metaErr != nil {
+		return w.metaErr
 	}
 
 	s, release := w.acquireState()
